@@ -175,8 +175,6 @@ def run_uqueue(ctx):
         r0 = h[0]
         npush = ",".join(str(x) for x in r0["npush"])
         key = "uqueue;%s;%s" % (shape(npush, r0["ncons"]), signature(h, line))
-        if key in seen_keys:
-            continue
         # a lost wake-up is the RECORDED finding only if the execution follows, step by step, the wake-up
         # protocol as transcribed in spec/Uqueue.tla (which loses it too); an execution that leaves the
         # protocol is something else and gets a name of its own
